@@ -21,7 +21,8 @@ META = {
             "cursor that is registered and neither failed nor in flight) and a history machine over failure "
             "sequences; TLC checks it exhaustively for small bounds and exports seeded random histories (lists up "
             "to 3 with repeats, 14 host spellings incl. upper/mixed case, Forge FML/FORGE markers, TCPShield "
-            "real-ip data, look-alike hosts, mixed-case configuration keys, registered subsets, up to 3 failures of "
+            "real-ip data, look-alike hosts, mixed-case configuration keys, registered subsets, servers re-registered "
+            "through the API under an upper-case name, up to 3 failures of "
             "kinds kick-during-login / kick-after-join / kick-after-join with a stalled switch in flight). Each is "
             "replayed on the live proxy configured through gate's YAML loader; TLC validates which backend received "
             "each attempt, the final state and that the final disconnect carries the last kick reason.",
@@ -129,6 +130,11 @@ def classify(run, bi):
     clean = host.split("\x00")[0].split("///")[0].lower()
     src = "forced" if reset["forced"]["has"] and reset["forced"]["list"] and clean == cps(reset["forced"]["key"]).lower() else "try"
     prior = [a["fail"] for a in run[1:bi] if a["ev"] == "attempt"]
+    prev = [a for a in run[1:bi] if a["ev"] == "attempt"][-1:]
+    if prev and bad["ev"] == "attempt" and bad["server"] in reset.get("renamed", []) \
+            and bad["server"] in (prev[0]["server"], prev[0]["inflight"]):
+        # the failed / in-flight server is registered under another spelling of its listed name and is chosen again
+        return "choice:excluded-server-chosen:registered-name-differs-in-case"
     if bad["ev"] == "attempt":
         return "choice:%s:%s:after[%s]->%s" % (src, spelling, ",".join(prior), "unexpected-attempt")
     return "end:%s:%s:after[%s]->%s" % (src, spelling, ",".join(prior), bad["state"])
@@ -136,7 +142,7 @@ def classify(run, bi):
 
 def describe(run, bi):
     reset, bad = run[0], run[bi]
-    return ("vhost %r, forced %s=%s, try %s, registered %s: attempts so far %s; proxy did %s, not allowed by ServerChoice spec"
-            % (cps(reset["vh"]), cps(reset["forced"]["key"]), reset["forced"]["list"], reset["try"], reset["reg"],
+    return ("vhost %r, forced %s=%s, try %s, registered %s (renamed %s): attempts so far %s; proxy did %s, not allowed by ServerChoice spec"
+            % (cps(reset["vh"]), cps(reset["forced"]["key"]), reset["forced"]["list"], reset["try"], reset["reg"], [x.upper() for x in reset.get("renamed", [])],
                [(a["server"], a["fail"], a["inflight"]) for a in run[1:bi] if a["ev"] == "attempt"],
                {k: v for k, v in bad.items() if k in ("ev", "server", "fail", "state", "kicks", "text")}))
